@@ -26,6 +26,7 @@ RULE = ("cases = seeded samples over method x bc_type x grid kind x nx in [2,40]
         "twin-axis x dtype, plus the exhaustive (rank, axis) table for every method and the nx in {2,3,4,5} table for every "
         "method/bc; non-trivial = y has at least two distinct non-zero values along the integrated axis, every "
         "cumsum/integrate call of the case returned, and the value oracle was evaluated for every named axis")
+RULE += ('; group big: stacks of 10^4..10^5 values, integrated axis anywhere')
 MIN_NONTRIVIAL = {"quick": 900, "thorough": 9000}
 ASSUMPTIONS = ["sample positions strictly increasing, 1-D, never requiring grad; x in [-3, 6], range 0.5-4",
                "adjacent spacing ratio <= e^3 (clustered), total max/min spacing <= 1e3",
